@@ -427,6 +427,12 @@ func (p *Parser) parseProviderArgument(pkg *packages.Package, kessokuPackageScop
 					return nil
 				}
 				continue
+			case *ast.ParenExpr:
+				currentArg = v.X
+				continue
+			default:
+				// e.g. lib.Set: a Set variable of another package cannot be expanded
+				return fmt.Errorf("unsupported Set expression %s", types.ExprString(currentArg))
 			}
 		}
 
